@@ -194,6 +194,55 @@ def run_build(conf, reverse=False, controlled=True):
     return [(f.filename, f.contents, f.hash) for f in res.files]
 
 
+STAGES = ['after-PortSelect', 'after-PortsSemanticsCfg', 'after-PortsCfg', 'after-Configuration', 'after-str',
+          'after-first-build']
+
+
+def late_completion_run(conf, stage):
+    """The name sets of the configuration are constructed in two steps: the first name before the set is wrapped,
+    the remaining names at `stage`. At the moment of the (last) build the inputs equal those of run_build()."""
+    from dznpy.adv_shell import Builder, PortSelect, PortWildcard, PortsCfg, PortsSemanticsCfg, \
+        MultiClientPortCfg  # pylint: disable=import-outside-toplevel
+    from dznpy.scoping import ns_ids_t  # pylint: disable=import-outside-toplevel
+    pending = []
+
+    def sel(desc):
+        if isinstance(desc, str):
+            return PortSelect(PortWildcard[desc])
+        val = {desc[0]}
+        pending.append((val, list(desc[1:])))
+        return PortSelect(val)
+
+    def complete(now):
+        if now == stage:
+            for val, rest in pending:
+                for name in rest:
+                    val.add(name)
+    model = mini_model(conf['prov'], conf['req'], conf['inj'], conf['mc'])
+    fct = B.parse_model(model)
+    sels = [sel(conf['psel'][0]), sel(conf['psel'][1]), sel(conf['rsel'][0]), sel(conf['rsel'][1])]
+    complete('after-PortSelect')
+    prov = PortsSemanticsCfg(sts=sels[0], mts=sels[1])
+    req = PortsSemanticsCfg(sts=sels[2], mts=sels[3])
+    complete('after-PortsSemanticsCfg')
+    mcfg = MultiClientPortCfg(conf['prov'][0], 'Claim', ns_ids_t('Ok'), 'Release') if conf['mc'] else None
+    pcfg = PortsCfg(provides=prov, requires=req, multiclient=mcfg)
+    complete('after-PortsCfg')
+    cfg = B.mk_configuration(model, {'fac': conf['fac'], 'copyright': '(c) x', 'creator': 'me'}, fct, pcfg)
+    complete('after-Configuration')
+    if stage in ('after-str', 'after-first-build'):
+        _ = str(pcfg), repr(pcfg), str(prov), str(req), [str(x) for x in sels], hash(str(cfg.ports_cfg))
+    complete('after-str')
+    if stage == 'after-first-build':
+        try:
+            Builder().build(cfg)
+        except Exception:  # pylint: disable=broad-except
+            pass            # the incomplete configuration may well be invalid
+        complete('after-first-build')
+    res = Builder().build(cfg)
+    return [(f.filename, f.contents, f.hash) for f in res.files]
+
+
 def controlled_run(conf, prefix):
     import dznpy.ast_view as av  # pylint: disable=import-outside-toplevel
     ctl = Controller(prefix)
@@ -259,7 +308,20 @@ def explore_conf(conf, bound, part, stop_after_first=True):
     return base_files, sorted(seen_sites)
 
 
+def judge_stage(case):
+    base = run_build(case['conf'], controlled=False)
+    try:
+        got = late_completion_run(case['conf'], case['stage'])
+    except Exception as exc:  # pylint: disable=broad-except
+        return [(f'late-completed-set-breaks-build:{case["stage"]}:{type(exc).__name__}', repr(exc))]
+    if [(n, h) for n, _c, h in got] != [(n, h) for n, _c, h in base]:
+        return [(f'output-depends-on-when-the-set-was-completed:{case["stage"]}', 'differs')]
+    return []
+
+
 def judge(case):
+    if 'stage' in case:
+        return judge_stage(case)
     conf = case['conf']
     if case.get('child'):
         return judge_child(case)
@@ -285,6 +347,24 @@ def work(job):
     conf, bound = job
     part = Partial()
     base, sites = explore_conf(conf, bound, part)
+    # construction schedules of the name sets: completed at every later stage, the build must give the same files
+    if any(not isinstance(x, str) and len(x) >= 2 for x in conf['psel'] + conf['rsel']):
+        for stage in STAGES:
+            part.evaluations += 1
+            part.states += 1
+            part.transitions += 1
+            part.nontrivial += 1
+            try:
+                got = late_completion_run(conf, stage)
+            except Exception as exc:  # pylint: disable=broad-except
+                part.violation(f'late-completed-set-breaks-build:{stage}:{type(exc).__name__}',
+                               f'{exc!r} | conf={conf}', {'conf': conf, 'stage': stage})
+                continue
+            if [(n, h) for n, _c, h in got] != [(n, h) for n, _c, h in base]:
+                diff = [a[0] for a, b in zip(base, got) if a[1] != b[1]]
+                part.violation(f'output-depends-on-when-the-set-was-completed:{stage}',
+                               f'files {diff} differ when the name sets are completed {stage} | conf={conf}',
+                               {'conf': conf, 'stage': stage})
     part.extra['configurations'] = 1
     part.sample({'conf': conf, 'deviation_bound': bound, 'iteration_sites': sites})
     part.results = {json.dumps(conf, sort_keys=True): [(n, h) for n, _c, h in base]}
